@@ -26,6 +26,9 @@ def run(ctx):
             ("fw", "mem", 400 if quick else 6000, "failures"),
             # the same with projections over the firewalls (and projections over those: graded)
             ("ptfc", "mem", 400 if quick else 2500, "failures"),
+            # ... with tops that read part of their dependencies inside an unordered group
+            ("gtfc", "mem", 400 if quick else 2500, "failures"),
+            ("gptfc", "mem", 300 if quick else 2000, "failures"),
             ("ptfc-chain", "mem", 300 if quick else 2000, "graded_failures"),
             # the firewall fragment model Engine/Fw.v (the one FwSound.v is about) against the same kind of histories
             ("fw", "mem", 300 if quick else 3000, "fw_failures"),
